@@ -241,7 +241,17 @@ class Generator:
             return self.rng.choice(cands)
         if not self.room():
             return cands[0] if cands else None
-        return self.g_new(lengths=lens, dtype=self.rng.choice([dt.name, self.rng.choice(self.P["dtypes"])]))
+        dtype = self.rng.choice([dt.name, self.rng.choice(self.P["dtypes"])])
+        if self.rng.random() < 0.25:
+            # RaggedArray(flat, v.shape) / RaggedArray(flat, v.lengths): the shape comes from a live (possibly
+            # unread) array
+            w = self.fresh()
+            self.emit({"op": "new_like", "dst": w, "src": v, "how": self.rng.choice(["tuple", "lengths"]),
+                       "flat": [_val(self.rng, dtype) for _ in range(sum(lens))], "dtype": dtype}, "new_like")
+            if w in self.ex.env:
+                self.depth[w] = 0
+                return w
+        return self.g_new(lengths=lens, dtype=dtype)
 
     # -- step kinds ----------------------------------------------------------------------------
     def g_sel(self, chain=False):
@@ -501,7 +511,10 @@ class Generator:
         if v is None or not self.room():
             return
         f = self.rng.choice(["cumsum", "np_cumsum", "acc_add", "acc_subtract", "acc_bitwise_xor", "sort",
-                             "sort", "unique", "unique_counts", "diff"])
+                             "sort", "unique", "unique_counts", "diff", "flat_cumsum", "flat_unique"])
+        if f.startswith("flat_"):
+            self.emit({"op": "scan", "src": v, "f": f}, "scan:" + f)
+            return
         st = {"op": "scan", "src": v, "f": f, "dst": self.fresh()}
         if f == "diff":
             st["n"] = self.rng.choice([1, 1, 2, 3])
